@@ -164,15 +164,19 @@ def lowering_tie(run, rnd, quick):
     if not cases:
         return 'no lowering case could be exported', []
     body = ['From Coq Require Import List Arith Bool.', 'Import ListNotations.',
-            'Require Import MV.Lower.Lang MV.Lower.Passes MV.Lower.PassesCheck MV.Lower.Compose.',
+            'Require Import MV.Lower.Lang MV.Lower.Passes MV.Lower.PassesCheck MV.Lower.Compose MV.Lower.Source.',
             'Definition cases : list lcase := [', ';\n'.join(cases), '].',
             'Eval vm_compute in failing_lcases cases.', 'Eval vm_compute in map which_fails (filter (fun c => negb (check_lcase c)) cases).',
-            'Eval vm_compute in (length (filter (fun c => match c with (_, b0, _, _, _, _) => lowering_hyps b0 end) cases), tt).']
+            'Eval vm_compute in (length (filter (fun c => match c with (_, b0, _, _, _, _) => lowering_hyps b0 end) cases), tt).',
+            'Eval vm_compute in (length (filter (fun c => match c with (_, b0, _, _, _, _) => src_block b0 end) cases), tt, tt).']
     rc, out = vlib.coq_eval('C01', 'lowering', '\n'.join(body), timeout=600)
     bad = vlib.parse_coq_list_of_nat(out) if rc == 0 else None
     mh = re.search(r'=\s*\((\d+),\s*tt\)', out)
     if mh:
         run.extra['lowering_programs_satisfying_theorem_hypotheses'] = int(mh.group(1))
+    mh = re.search(r'=\s*\((\d+),\s*tt,\s*tt\)', out)
+    if mh:
+        run.extra['lowering_programs_satisfying_source_condition'] = int(mh.group(1))
     if bad is None:
         return 'model evaluation failed: ' + out[-400:], []
     if bad:
@@ -217,7 +221,7 @@ def check(run):
         tie_msg = str(e)
         run.note(tie_msg)
     if tie_ok:
-        vlib.standard_proof_step(run, ['Lower/PassesCheck.vo', 'Lower/Compose.vo'])
+        vlib.standard_proof_step(run, ['Lower/PassesCheck.vo', 'Lower/Compose.vo', 'Lower/Source.vo'])
     rnd = random.Random(run.seed * 104729 + 1)
     lower_bad, lower_programs = None, []
     nprog = 120 if quick else 1500
